@@ -409,6 +409,176 @@ theorem specUnescape_escSet (e off : UInt8) (qs : List UInt8) (he : qs.contains 
 
 end QmiModel.Interbus
 
+/-! ## Interbus: linearity of the CRC step, uniqueness of the residue bytes, length of the un-escaped stream -/
+
+namespace QmiModel.Interbus
+
+
+/-- eight bit steps = the body of `_crc_ccitt` after the xor -/
+def crcByte (poly x : Nat) : Nat :=
+  crcBit poly (crcBit poly (crcBit poly (crcBit poly (crcBit poly (crcBit poly (crcBit poly (crcBit poly x)))))))
+
+theorem crcStep_eq_crcByte (poly crc c : Nat) : crcStep poly crc c = crcByte poly (crc ^^^ (c <<< 8)) := rfl
+
+theorem xor_xor_xor_cancel (a b p : Nat) : (a ^^^ p) ^^^ (b ^^^ p) = a ^^^ b := by
+  apply Nat.eq_of_testBit_eq
+  intro i
+  simp only [Nat.testBit_xor]
+  cases a.testBit i <;> cases b.testBit i <;> cases p.testBit i <;> rfl
+
+theorem xor_right_comm' (a b p : Nat) : (a ^^^ b) ^^^ p = (a ^^^ p) ^^^ b := by
+  apply Nat.eq_of_testBit_eq
+  intro i
+  simp only [Nat.testBit_xor]
+  cases a.testBit i <;> cases b.testBit i <;> cases p.testBit i <;> rfl
+
+/-- the bit step is linear over xor -/
+theorem crcBit_xor (poly a b : Nat) (ha : a < 65536) (hb : b < 65536) :
+    crcBit poly (a ^^^ b) = crcBit poly a ^^^ crcBit poly b := by
+  have hab : a ^^^ b < 65536 := Nat.xor_lt_two_pow (n := 16) ha hb
+  unfold crcBit
+  have hy : ((a ^^^ b) <<< 1) &&& 0xffff = ((a <<< 1) &&& 0xffff) ^^^ ((b <<< 1) &&& 0xffff) := by
+    rw [Nat.shiftLeft_xor_distrib, Nat.and_xor_distrib_right]
+  have hf : (a ^^^ b) &&& 0x8000 = (a &&& 0x8000) ^^^ (b &&& 0x8000) := Nat.and_xor_distrib_right
+  simp only [hy, hf, and_8000 a ha, and_8000 b hb]
+  generalize (a <<< 1) &&& 0xffff = ya
+  generalize (b <<< 1) &&& 0xffff = yb
+  by_cases h1 : 32768 ≤ a <;> by_cases h2 : 32768 ≤ b
+  · simp only [h1, h2, if_true, Nat.xor_self, bne_self_eq_false, Bool.false_eq_true, if_false]
+    exact (xor_xor_xor_cancel ya yb poly).symm
+  · simp only [h1, h2, if_true, if_false, Nat.xor_zero]
+    have : ((32768 : Nat) != 0) = true := by decide
+    simp only [this, if_true]
+    exact xor_right_comm' ya yb poly
+  · simp only [h1, h2, if_true, if_false, Nat.zero_xor]
+    have : ((32768 : Nat) != 0) = true := by decide
+    simp only [this, if_true]
+    exact Nat.xor_assoc ya yb poly
+  · simp only [h1, h2, if_false, Nat.xor_self, bne_self_eq_false, Bool.false_eq_true]
+
+theorem crcByte_lt (poly x : Nat) (hp : poly < 65536) (hx : x < 65536) : crcByte poly x < 65536 := by
+  unfold crcByte
+  exact crcBit_lt _ _ hp (crcBit_lt _ _ hp (crcBit_lt _ _ hp (crcBit_lt _ _ hp (crcBit_lt _ _ hp
+    (crcBit_lt _ _ hp (crcBit_lt _ _ hp (crcBit_lt _ _ hp hx)))))))
+
+theorem crcByte_xor (poly a b : Nat) (hp : poly < 65536) (ha : a < 65536) (hb : b < 65536) :
+    crcByte poly (a ^^^ b) = crcByte poly a ^^^ crcByte poly b := by
+  have l := crcBit_lt poly
+  unfold crcByte
+  rw [crcBit_xor poly a b ha hb,
+      crcBit_xor poly _ _ (l _ hp ha) (l _ hp hb),
+      crcBit_xor poly _ _ (l _ hp (l _ hp ha)) (l _ hp (l _ hp hb)),
+      crcBit_xor poly _ _ (l _ hp (l _ hp (l _ hp ha))) (l _ hp (l _ hp (l _ hp hb))),
+      crcBit_xor poly _ _ (l _ hp (l _ hp (l _ hp (l _ hp ha)))) (l _ hp (l _ hp (l _ hp (l _ hp hb)))),
+      crcBit_xor poly _ _ (l _ hp (l _ hp (l _ hp (l _ hp (l _ hp ha))))) (l _ hp (l _ hp (l _ hp (l _ hp (l _ hp hb))))),
+      crcBit_xor poly _ _ (l _ hp (l _ hp (l _ hp (l _ hp (l _ hp (l _ hp ha)))))) (l _ hp (l _ hp (l _ hp (l _ hp (l _ hp (l _ hp hb)))))),
+      crcBit_xor poly _ _ (l _ hp (l _ hp (l _ hp (l _ hp (l _ hp (l _ hp (l _ hp ha))))))) (l _ hp (l _ hp (l _ hp (l _ hp (l _ hp (l _ hp (l _ hp hb)))))))]
+
+/-- the low byte of the CRC table entry of a non-zero byte is non-zero (checked for the polynomial in use) -/
+def crcTableOk (poly : Nat) : Bool :=
+  (List.range 256).all fun d => d == 0 || crcByte poly (d <<< 8) % 256 != 0
+
+theorem crcTableOk_spec (poly d : Nat) (h : crcTableOk poly = true) (hd : d < 256) (hz : crcByte poly (d <<< 8) % 256 = 0) : d = 0 := by
+  have := List.all_eq_true.mp h d (by simpa using hd)
+  simp only [Bool.or_eq_true, beq_iff_eq, bne_iff_ne, ne_eq] at this
+  rcases this with h0 | h0
+  · exact h0
+  · exact absurd hz h0
+
+theorem xor_eq_zero (a b : Nat) (h : a ^^^ b = 0) : a = b := by
+  have := xor_cancel_right a b b (by rw [h, Nat.xor_self])
+  exact this
+
+/-- **the two bytes that drive a CRC state to 0 are unique**: they are the state's own high and low byte -/
+theorem crcStep_residue_unique (poly s c1 c2 : Nat) (hodd : poly % 2 = 1) (hp : poly < 65536) (ht : crcTableOk poly = true)
+    (hs : s < 65536) (h1 : c1 < 256) (h2 : c2 < 256)
+    (hz : crcStep poly (crcStep poly s c1) c2 = 0) : c1 = s / 256 ∧ c2 = s % 256 := by
+  have hres := crcStep_residue poly s
+  have hh : s / 256 < 256 := by omega
+  have hl : s % 256 < 256 := by omega
+  have sh8 : ∀ c, c < 256 → c <<< 8 < 65536 := by intro c hc; rw [Nat.shiftLeft_eq]; omega
+  -- first byte
+  have hX1 := crcStep_lt poly s c1 hp hs h1
+  have hX2 := crcStep_lt poly s (s / 256) hp hs hh
+  have e : crcStep poly (crcStep poly s c1) c2 = crcStep poly (crcStep poly s (s / 256)) (s % 256) := by rw [hz, hres]
+  simp only [crcStep_eq_crcByte] at e hX1 hX2
+  -- crcByte is injective
+  have inj : ∀ x y, x < 65536 → y < 65536 → crcByte poly x = crcByte poly y → x = y := by
+    intro x y hx hy hxy
+    have l := crcBit_lt poly
+    have i := crcBit_inj poly
+    unfold crcByte at hxy
+    exact i _ _ hodd hx hy <|
+      i _ _ hodd (l _ hp hx) (l _ hp hy) <|
+      i _ _ hodd (l _ hp (l _ hp hx)) (l _ hp (l _ hp hy)) <|
+      i _ _ hodd (l _ hp (l _ hp (l _ hp hx))) (l _ hp (l _ hp (l _ hp hy))) <|
+      i _ _ hodd (l _ hp (l _ hp (l _ hp (l _ hp hx)))) (l _ hp (l _ hp (l _ hp (l _ hp hy)))) <|
+      i _ _ hodd (l _ hp (l _ hp (l _ hp (l _ hp (l _ hp hx))))) (l _ hp (l _ hp (l _ hp (l _ hp (l _ hp hy))))) <|
+      i _ _ hodd (l _ hp (l _ hp (l _ hp (l _ hp (l _ hp (l _ hp hx)))))) (l _ hp (l _ hp (l _ hp (l _ hp (l _ hp (l _ hp hy)))))) <|
+      i _ _ hodd (l _ hp (l _ hp (l _ hp (l _ hp (l _ hp (l _ hp (l _ hp hx))))))) (l _ hp (l _ hp (l _ hp (l _ hp (l _ hp (l _ hp (l _ hp hy))))))) hxy
+  have e2 := inj _ _ (Nat.xor_lt_two_pow (n := 16) hX1 (sh8 c2 h2)) (Nat.xor_lt_two_pow (n := 16) hX2 (sh8 _ hl)) e
+  -- low bytes
+  have e3 := congrArg (· % 2 ^ 8) e2
+  simp only [Nat.xor_mod_two_pow] at e3
+  have z1 : c2 <<< 8 % 2 ^ 8 = 0 := by rw [Nat.shiftLeft_eq]; omega
+  have z2 : (s % 256) <<< 8 % 2 ^ 8 = 0 := by rw [Nat.shiftLeft_eq]; omega
+  rw [z1, z2, Nat.xor_zero, Nat.xor_zero] at e3
+  -- linearity
+  rw [crcByte_xor poly s _ hp hs (sh8 c1 h1), crcByte_xor poly s _ hp hs (sh8 _ hh)] at e3
+  have e4 : (crcByte poly (c1 <<< 8) ^^^ crcByte poly ((s / 256) <<< 8)) % 2 ^ 8 = 0 := by
+    have := congrArg (fun v => (crcByte poly s % 2 ^ 8) ^^^ v) e3
+    simp only [Nat.xor_mod_two_pow] at this ⊢
+    have k : ∀ A B C : Nat, (A ^^^ (A ^^^ B) = A ^^^ (A ^^^ C)) → B ^^^ C = 0 := by
+      intro A B C hk
+      rw [← Nat.xor_assoc, ← Nat.xor_assoc, Nat.xor_self, Nat.zero_xor, Nat.zero_xor] at hk
+      rw [hk, Nat.xor_self]
+    exact k _ _ _ this
+  rw [← crcByte_xor poly _ _ hp (sh8 c1 h1) (sh8 _ hh), ← Nat.shiftLeft_xor_distrib] at e4
+  have hc : c1 ^^^ s / 256 < 256 := Nat.xor_lt_two_pow (n := 8) h1 hh
+  have := crcTableOk_spec poly _ ht hc e4
+  have hc1 : c1 = s / 256 := xor_eq_zero _ _ this
+  refine ⟨hc1, ?_⟩
+  subst hc1
+  exact crcStep_inj_byte poly _ c2 (s % 256) hodd hp (crcStep_lt poly s _ hp hs hh) h2 hl (by rw [hz, hres])
+
+theorem crcOf_residue_unique (poly : Nat) (hodd : poly % 2 = 1) (hp : poly < 65536) (ht : crcTableOk poly = true)
+    (bs : Bytes) (c1 c2 : UInt8) (hz : crcOf poly (bs ++ [c1, c2]) = 0) :
+    c1 = UInt8.ofNat (crcOf poly bs / 256) ∧ c2 = UInt8.ofNat (crcOf poly bs % 256) := by
+  have hs := crcOf_lt poly hp bs
+  unfold crcOf at *
+  rw [List.foldl_append] at hz
+  simp only [List.foldl_cons, List.foldl_nil] at hz
+  have := crcStep_residue_unique poly _ _ _ hodd hp ht hs (UInt8.toNat_lt c1) (UInt8.toNat_lt c2) hz
+  constructor
+  · apply UInt8.toNat_inj.mp; rw [this.1, UInt8.toNat_ofNat']; omega
+  · apply UInt8.toNat_inj.mp; rw [this.2, UInt8.toNat_ofNat']; omega
+
+
+
+theorem replace2_length_le (a b : UInt8) (r : Bytes) (hr : r.length ≤ 2) (bs : Bytes) :
+    (replace2 a b r bs).length ≤ bs.length := by
+  fun_induction replace2 a b r bs with
+  | case1 => simp
+  | case2 x => simp
+  | case3 x y rest h ih => simp only [List.length_append, List.length_cons]; omega
+  | case4 x y rest h ih => simp only [List.length_cons] at ih ⊢; omega
+
+theorem length_unescape_le (p : Params) (bs : Bytes) : (unescape p bs).length ≤ bs.length := by
+  unfold unescape
+  generalize p.unescOrder = order
+  induction order generalizing bs with
+  | nil => simp
+  | cons v vs ih =>
+    rw [List.foldl_cons]
+    exact Nat.le_trans (ih _) (replace2_length_le _ _ _ (by simp) bs)
+
+theorem list_split4 (l : Bytes) (h : 4 ≤ l.length) :
+    l = [l.getD 0 0, l.getD 1 0, l.getD 2 0, l.getD 3 0] ++ l.drop 4 := by
+  match l, h with
+  | a :: b :: c :: d :: rest, _ => simp
+
+end QmiModel.Interbus
+
 /-! ## APT cells -/
 
 namespace QmiModel.Apt
